@@ -90,6 +90,11 @@ class Dumper:
         h = ",".join(str(ord(c)) for c in hay)
         return self._ask("findnp\t%s\t%d\t%s\t%d\t%s" % (flags, 1 if no_opt else 0, cps, start, h))
 
+    def iter_consistency(self, pattern, flags, no_opt, hay, start, engine="bt"):
+        cps = ",".join(str(ord(c)) if isinstance(c, str) else str(c) for c in pattern)
+        h = ",".join(str(ord(c)) for c in hay)
+        return self._ask("iterc\t%s\t%d\t%s\t%d\t%s\t%s" % (flags, 1 if no_opt else 0, cps, start, h, engine))
+
     def close(self):
         try:
             self.proc.stdin.close()
